@@ -60,9 +60,9 @@ def gen_case(rng, tier, idx):
         members = {}
         for k in range(npts):
             if rng.random() < 0.75:
-                form = rng.choice(["one", "one", "any", "via", "via2", "via_any"])
+                form = rng.choice(["one", "one", "any", "via", "via2", "via_any", "tools_and_any"])
                 pool = hot if rng.random() < 0.8 else CTX_NAMES
-                if form in ("any", "via_any"):
+                if form in ("any", "via_any", "tools_and_any"):
                     cs = rng.sample(CTX_NAMES, rng.randint(2, 3)) if len(pool) < 2 else list(set(rng.sample(pool, 2) + [rng.choice(CTX_NAMES)]))
                 else:
                     cs = [rng.choice(pool)]
@@ -137,6 +137,11 @@ def run_case(spec, ctx):
                     deps = [cs[0]]
                 elif form == "any":
                     deps = [list(cs)]
+                elif form == "tools_and_any":
+                    # two at-least-one groups: one of two context-free helper tools, and one of the contexts
+                    t1 = mk_ds("t1_" + tag, "ok", [], "tool")
+                    t2 = mk_ds("t2_" + tag, m["helper_outcome"], [], "tool")
+                    deps = [[t1, t2], list(cs)] if ci % 2 else [list(cs), [t1, t2]]
                 else:
                     hdeps = [list(cs)] if form == "via_any" else [cs[0]]
                     h = mk_ds("h_" + tag, m["helper_outcome"], hdeps, "helper")
